@@ -129,7 +129,11 @@ impl EntityWorldReactor for ER2
     fn reactor(self) -> SystemCommandCallback
     {
         SystemCommandCallback::new(|mut local: EntityLocal<ER2>| {
+            // every accessor form agrees
+            let e0 = local.entity();
+            let (e1, d1) = { let (e, d) = local.get(); (e, *d) };
             let (e, d) = local.get_mut();
+            assert!(e0 == e1 && e1 == e && d1 == *d, "EntityLocal accessors disagree");
             LOG.with(|l| l.borrow_mut().push(Rec16::Entity(2, ent_index(e), *d)));
             *d += 1;
         })
